@@ -498,6 +498,10 @@ func Run(r *report.Run) int {
 		cutSigs[f.Sig]++
 	}
 
+	if r.Replay != "" {
+		return c17.Replay(r, id, hookEvery(1), "replay of one recorded program, probes after every operation")
+	}
+
 	// ---- Part 1: exhaustive sequences -----------------------------------------------------------
 	type exhPlan struct {
 		uniq                bool
